@@ -6,4 +6,4 @@ META = dict(trusted_base=COMMON_TB + [
 
 
 def items(tier):
-    return contract_items("C08", tier) + [dict(kind="scan", spec="lemmas.l_c08:scan")]
+    return contract_items("C08", tier) + [dict(kind="scan", spec="lemmas.l_c08:scan"), dict(kind="bounded", spec="lemmas.b_c08:harness")]
